@@ -90,3 +90,9 @@ claim("C14",
   "Decides structural necessary conditions of C14 for every container list and configuration: pod and container level use the same extractor on the same list, the same conversion and the same adjustment after it (so one level cannot be clamped or scaled differently from the other), write the same response field and the same disabled value; nothing is written for non-BE pods or without an extended spec; a successfully read CPU normalization ratio always reaches the rule. It does not decide the conversion arithmetic, rounding or the numeric 'pod no tighter than a container'.",
   "trusts go/ssa and the canonical rendering of SSA expressions; the pod-level aggregation loop is deliberately outside the comparison",
   "DESIGN.md §4 C14")
+
+claim("C17",
+  "custom SSA rules: conditional-constant exploration of doMigrate under each failed gate (eviction unreachable), dominance of every gate over the eviction, terminal-phase short-circuit (no effectful call reachable), gate and must-follow rules in evictPod, ordering rule in the TTL abort",
+  "Decides structural necessary conditions of C17 for every reconcile input: the reservation-first eviction is unreachable while the reservation is missing, pending, expired, unscheduled without completed preemption, or placed on the pod's own node, and every such check is evaluated on every path to the eviction; a finished job reaches no effectful call; the evictor is not called when the condition is True/Evicting or the reservation is bound by another pod, and a successful eviction always persists the Evicting condition; the TTL abort deletes the reservation before marking the job failed and retries on delete errors. It does not decide multi-reconcile histories with faults or 'at most once' across reconciles.",
+  "trusts go/ssa and the rule tables in internal/rules/c17.go; abortJobIfReserveOnSameNode failing open on a read error is noted in DESIGN.md as not claimed",
+  "DESIGN.md §4 C17")
